@@ -30,11 +30,10 @@ type c18State struct {
 	prefix string
 	seen   map[string]bool
 	ops    int
-	quiet  bool
 }
 
 func c18NewState(ctx *vfCtx, prefix string) *c18State {
-	return &c18State{ctx: ctx, prefix: prefix, seen: map[string]bool{}, quiet: os.Getenv("VF_C18_DISCOVER") != ""}
+	return &c18State{ctx: ctx, prefix: prefix, seen: map[string]bool{}}
 }
 
 func (s *c18State) call(op string, f func()) (panicked bool) {
@@ -46,11 +45,6 @@ func (s *c18State) call(op string, f func()) (panicked bool) {
 	}
 	fd := s.ctx.findings[len(s.ctx.findings)-1]
 	stem := fd.Sig[len(s.prefix)+len("/panic/"):]
-	if s.quiet {
-		s.ctx.findings = s.ctx.findings[:n]
-		s.ctx.Class("unjudged-panic/" + s.prefix + "/" + stem + "/via/" + op)
-		return panicked
-	}
 	if s.seen[fd.Sig] {
 		s.ctx.findings = s.ctx.findings[:n]
 		s.ctx.Class("again/" + stem)
